@@ -43,6 +43,10 @@ CHECKS["C13"] = dict(cat="model_checking", technique="explicit-state BFS over lo
              text="All histories up to depth 7 (thorough 8) over load of eight modules (two exporters of function v, two of data w, three importers, a forward+export module and its importer), three external registrations, link, link with resolver and the redefinition permission are executed on a fresh real context; "
                   "after each link every importer linked in that step is interpreted and must run the definition that was latest when the step began to resolve it; error codes for undefined imports and repeated function definitions are compared with the model.",
              note="only importers linked in the current step are judged (the property speaks of the moment the step completes); function-over-external/data redefinition without permission is unconstrained; pending list enters the canonical state from the model", ref="§3 C13")
+CHECKS["C14"] = dict(cat="exploration", technique="exhaustive enumeration of item sequences (<=3 items over 42 shapes x named/anonymous) with address/byte inspection after load+link",
+             text="Every sequence of one to three data-area items over the alphabet (data of nine element types with 1 or 3 elements, bss of 0/1/7/8/9 bytes, ref to an earlier item, a later item, an import and a function with and without displacement, four lref forms, expr of eight result types), each named or anonymous, is placed between two named sentinels, loaded and linked; "
+                  "the harness checks section heads, contiguity (addr[k+1]==addr[k]+size[k]), declared bytes, zeroed bss, ref = target address + disp, expr = value of the expression function, and for lrefs the label address / difference once the function ran, including a jmpi through the stored value, under the interpreter and gen -O2.",
+             note="558174 modules in both tiers; the thorough tier also runs 120000 of them on the asan build", ref="§3 C14")
 NOT_YET = {}
 def main():
     props = [json.loads(l) for l in open(os.path.join(VERIF, "properties.jsonl"))]
